@@ -47,7 +47,7 @@ CHECKS["C03"] = dict(
         "pending or queued bounce, or under one of the two documented exemptions (discarded double bounce; non-crash-proof bounce record after a machine crash); a message is removed only when all are "
         "accounted for; a D mark is written only after a K report or after the bounce paragraph of a D/expired-Z report; only K finishes a recipient at report time; channel files are unlinked only when "
         "every record is finished; info last; bounce record removed only after a successful injection or for #@[]. Tied to the code by replaying the traces of the real qmail-send and qmail-clean mains "
-        "under an in-memory POSIX simulator (scripted spawners, 1600/24000 seeded histories with signals, failing calls, process/machine crashes and restarts) through the monitor, and by an independent "
+        "under an in-memory POSIX simulator (scripted spawners, ~4500/128000 seeded histories: signals, single failing calls incl. a sweep over every call that touches info/local/remote/bounce/todo in slot-reusing multi-message histories, process/machine crashes, restarts after crashes AND after clean stops at every interesting select, spawner limit bytes and concurrency over 0..255 with up to 280 recipients, withheld reports, expired messages) through the monitor, and by an independent "
         "recipient-accounting oracle on each concrete run.",
    note=_DAEMON_NOTE,
    technique="Lean 4 proof (inductive accounting invariant over a protocol monitor, closed under crash/restart events) + trace-replay correspondence with the real daemon under a simulated libc",
@@ -55,7 +55,7 @@ CHECKS["C03"] = dict(
 CHECKS["C04"] = dict(
    text="Theorems about every event sequence accepted by the same monitor: outstanding attempts per channel never exceed min(configured concurrency, spawner limit); no two outstanding attempts for the "
         "same recipient record and no delivery number in use twice (invariant by induction over all events); a delivery command is accepted only for a record whose completion mark is not on disk, and is "
-        "refused once the D byte is there - in the same run, after restart, after a crash that kept the byte; restart forgets slots but no file content. Tied to the code as C03; the oracle checks on each "
+        "refused once the D byte is there - in the same run, after restart, after a crash that kept the byte; restart forgets slots but no file content; a second layer (DaemonOwed.accept2, proved to refine the monitor) keeps the marks that are *owed* after a K/D report across clean restarts, so that a skipped mark is refused (C04_reported_refused, C04_K_owed, C04_D_owed, C04_owed_persists, C04_cleanRestart_keeps, C04_layer_refines). Tied to the code as C03; the oracle checks on each "
         "concrete run that no command follows a written mark (absent a machine crash), no slot is reused while in flight, and the in-flight count stays within the limit.",
    note=_DAEMON_NOTE + " 'exactly once without crashes' is stated as the conjunction of C04_no_retry/C04_marked_refused with C03's accounting, not as a single trace-level theorem.",
    technique="Lean 4 proof (slot invariant by induction over monitor events; guard theorems) + trace-replay correspondence with the real daemon under a simulated libc",
